@@ -172,6 +172,25 @@ func genC13(e *emitter, tier string, seed int64) {
 		scripts := []scriptSrc{{"a.p", a}, {"b.p", b}, {"c.p", c}}
 		emitMulti(e, scripts, "a.p", stdPoint(rng), 3000, true, "calltree-rand", a+"\n---b\n"+b+"\n---c\n"+c, nil)
 	}
+	// (round 8) script names with a directory part: use("lib/b.p") runs the script registered under exactly
+	// that name, also when another script shares its base name, in call trees three deep
+	{
+		libb := "add_key(from, \"lib/b\")\nuse(\"lib/c.p\")\np(\"lib/b back\")\n"
+		plainb := "add_key(from, \"b\")\n"
+		libc := "add_key(fromc, \"lib/c\")\nzero = 0\nif get_key(boom) == 1 {\n  x = 1 / zero\n}\n"
+		plainc := "add_key(fromc, \"c\")\n"
+		for i, a := range []string{
+			"use(\"lib/b.p\")\np(\"back\", get_key(from), get_key(fromc))\n",
+			"use(\"b.p\")\nuse(\"lib/b.p\")\np(\"back\", get_key(from), get_key(fromc))\n",
+			"use(\"lib/b.p\")\nuse(\"b.p\")\np(\"back\", get_key(from), get_key(fromc))\n",
+			"add_key(boom, 1)\nuse(\"lib/b.p\")\nadd_key(after, 1)\n",
+			"use(\"./b.p\")\np(\"back\", get_key(from))\n",
+			"use(\"lib/c.p\")\nuse(\"c.p\")\np(\"back\", get_key(fromc))\n",
+		} {
+			scripts := []scriptSrc{{"a.p", a}, {"lib/b.p", libb}, {"b.p", plainb}, {"lib/c.p", libc}, {"c.p", plainc}}
+			emitMulti(e, scripts, "a.p", pt, 3000, true, "dir-names", fmt.Sprintf("dir-names-%d", i), nil)
+		}
+	}
 	// (round 7) a use() call runs the script it was loaded with: one caller text loaded next to different
 	// companions, every set kept by the host and run after the others were loaded
 	{
